@@ -1,4 +1,116 @@
-From PV Require Import Lib.Base Model.C07 Gen.C07_Schemas Proofs.C07.
+(* C07 -- property theorems.  Statements + `exact` only; proofs live in Proofs/C07.v, Proofs/C07_lib.v.
+   The model (Model/C07.v) is a schema-driven line codec; the schemas sch_* and the key-name table
+   key_tab / key_rows (Gen/C07_Schemas.v) are reflected / tabulated from the real line classes on every
+   run.  [fields_ok tab sch vs] = "every field value its format version allows": each value survives its
+   own codec (field_rt, proved per codec below) and its text fits the character class of the pattern. *)
+From PV Require Import Lib.Base Model.C07 Gen.C07_Schemas Proofs.C07_lib Proofs.C07.
+From Coq Require Import QArith Ascii.
+#[local] Open Scope string_scope.
+#[local] Open Scope Z_scope.
+
+(* O1, all schemas, all field values, unbounded: the scanner inverts out_pattern.format *)
+Theorem scan_fill : forall sch ts s,
+  schema_wf sch = true -> texts_ok sch ts = true -> fill sch ts = Some s -> scan sch s = Some ts.
+Proof. exact scan_fill_lemma. Qed.
+Print Assumptions scan_fill.
+
+(* O1: writing a line and parsing the text gives the same field values (a float of a fixed-point
+   field comes back as its d-decimal rounding: norm_line) *)
+Theorem line_roundtrip : forall tab sch vs,
+  schema_wf sch = true -> fields_ok tab sch vs ->
+  exists s, format_line tab sch vs = Some s /\ parse_line tab sch s = Some (norm_line (codecs sch) vs).
+Proof. exact line_roundtrip_lemma. Qed.
+Print Assumptions line_roundtrip.
+
+(* O2: writing the parsed object again gives the identical text *)
+Theorem line_fixpoint : forall tab sch vs,
+  schema_wf sch = true -> fields_ok tab sch vs ->
+  exists s vs', format_line tab sch vs = Some s /\ parse_line tab sch s = Some vs' /\
+                format_line tab sch vs' = Some s.
+Proof. exact line_fixpoint_lemma. Qed.
+Print Assumptions line_fixpoint.
+
+(* every schema reflected from the live classes (all classes x versions x attributes) satisfies the
+   side condition of the two theorems above *)
 Theorem reflected_schemas_wellformed : forallb (fun p => schema_wf (snd p)) all_schemas = true.
 Proof. exact reflected_schemas_wellformed_lemma. Qed.
 Print Assumptions reflected_schemas_wellformed.
+
+(* the hypotheses are satisfiable: sustain(711360,22). on the reflected 1.0.0 schema *)
+Theorem example_sustain :
+  exists s, format_line key_tab sch_sustain_v1_0_0 [VInt 711360; VInt 22] = Some s /\
+            parse_line key_tab sch_sustain_v1_0_0 s = Some [VInt 711360; VInt 22].
+Proof. exact example_sustain_lemma. Qed.
+Print Assumptions example_sustain.
+
+(* codecs, unbounded *)
+Theorem int_text_rt : forall z, parse_Z (print_Z z) = Some z.
+Proof. exact parse_print_Z. Qed.
+Print Assumptions int_text_rt.
+
+Theorem int_codec_rt : forall tab z, field_rt tab CInt (VInt z).
+Proof. exact int_codec_rt_lemma. Qed.
+Print Assumptions int_codec_rt.
+
+Theorem oct_codec_rt : forall tab z, field_rt tab COct (VInt z) /\ field_rt tab COct VNone.
+Proof. exact oct_codec_rt_lemma. Qed.
+Print Assumptions oct_codec_rt.
+
+(* attribute lists of any length, including the empty list *)
+Theorem list_codec_rt : forall tab l, items_ok l ->
+  field_rt tab CListIn (VList l) /\ field_rt tab CList (VList l).
+Proof. exact list_codec_rt_lemma. Qed.
+Print Assumptions list_codec_rt.
+
+(* key signatures: all 30 keys in every spelling (0: [en,major]  1: E Maj  3: E), with and without
+   an alternative key -- the model's codec over the reflected name table ... *)
+Theorem keysig_codec_rt : forall fmt f mi,
+  In fmt [0; 1; 3] -> -7 <= f <= 7 -> field_rt key_tab (CKey fmt false) (VKey ((f, mi), None) []).
+Proof. exact keysig_codec_rt_lemma. Qed.
+Print Assumptions keysig_codec_rt.
+
+Theorem keysig_alt_codec_rt : forall fmt f mi f2 mi2,
+  In fmt [1; 3] -> -7 <= f <= 7 -> -7 <= f2 <= 7 ->
+  field_rt key_tab (CKey fmt false) (VKey ((f, mi), Some (f2, mi2)) []).
+Proof. exact keysig_alt_codec_rt_lemma. Qed.
+Print Assumptions keysig_alt_codec_rt.
+
+(* ... and the implementation itself: key_rows is the graph of MatchKeySignature (write, then read)
+   on the whole domain; every key comes back as itself *)
+Theorem keysig_bijection_30 : forall fmt f mi,
+  In fmt [0; 1; 3] -> -7 <= f <= 7 -> exists t, In (fmt, f, mi, Some t, Some (f, mi)) key_rows.
+Proof. exact keysig_bijection_30_lemma. Qed.
+Print Assumptions keysig_bijection_30.
+
+(* O4 durations: addition is exact while the lcm form stays within bound_integers' bound ... *)
+Theorem frac_add_exact : forall f g,
+  let d1 := fden f * tdiv (ftd f) in
+  let d2 := fden g * tdiv (ftd g) in
+  0 < d1 -> 0 < d2 ->
+  Z.lcm d1 d2 <= frac_bound ->
+  (Z.lcm d1 d2 / d1) * fnum f + (Z.lcm d1 d2 / d2) * fnum g <= frac_bound ->
+  (frac_value (frac_add f g) == frac_value f + frac_value g)%Q.
+Proof. exact frac_add_exact_lemma. Qed.
+Print Assumptions frac_add_exact.
+
+Theorem frac_add_components : forall f g,
+  fcomps (frac_add f g) =
+  Some (filter (fun c : triple => negb (fst (fst c) =? 0)) (frac_comps f ++ frac_comps g)).
+Proof. exact frac_add_components_lemma. Qed.
+Print Assumptions frac_add_components.
+
+(* ... and only then: above the bound the sum's numeric value is merely approximated (1/1000 + 1/999) *)
+Theorem frac_add_inexact_above_bound :
+  exists f g, fnum f <= frac_bound /\ fden f <= frac_bound /\ fnum g <= frac_bound /\ fden g <= frac_bound /\
+    ~ (frac_value (frac_add f g) == frac_value f + frac_value g)%Q.
+Proof. exact frac_add_inexact_above_bound_lemma. Qed.
+Print Assumptions frac_add_inexact_above_bound.
+
+Theorem frac_bound_noop : forall n d, n <= frac_bound -> d <= frac_bound -> bound_pair n d = (n, d).
+Proof. exact bound_pair_noop. Qed.
+Print Assumptions frac_bound_noop.
+
+Theorem frac_bound_partial :
+  bound_pair 1025 1023 = (2, 2) /\ bound_pair 2048 4 = (1024, 2) /\ bound_pair 3 2048 = (1, 128).
+Proof. exact frac_bound_partial_lemma. Qed.
+Print Assumptions frac_bound_partial.
